@@ -405,8 +405,8 @@ Proof.
   eapply safe_bind. { apply scan_plain_spaces_safe; eassumption. }
   intros [s2 sp'] [Hw2 Hle2]. cbn [fst] in *.
   assert (Hlt : lt_s s s2) by (unfold le_s, lt_s in *; lia).
-  destruct sp' as [|x sp']; [cbn [safe]; auto with opt|].
   destruct (wfs_peek _ _ Hw2) as [c2 [r2 [Hr2 Hpk2]]]. rewrite Hpk2. cbn [bind].
+  destruct sp' as [|x sp']; [cbn [safe]; auto with opt|].
   destruct ((c2 =? c_hash) || (s_col s2 <? (if is_key then 0 else 1)));
     [cbn [safe]; auto with opt|].
   eapply safe_mono. { apply IH; [assumption | unfold lt_s in *; lia]. }
